@@ -251,7 +251,7 @@ def replay_cases(ctx, case_lines, exe='harness'):
     gp = os.path.join(ctx.work, f'replay{n}.go')
     lp = os.path.join(ctx.work, f'replay{n}.lean')
     open(cp, 'w').write('\n'.join(case_lines) + '\n')
-    rc, o, e = sh([os.path.join(GO, 'bin', exe), 'replay', '-cases', cp, '-res', gp], cwd=ctx.work, env=GOENV, timeout=180 if len(case_lines) <= 50 else 1200)
+    rc, o, e = sh([os.path.join(GO, 'bin', exe), 'replay', '-cases', cp, '-res', gp], cwd=ctx.work, env=GOENV, timeout=60 if len(case_lines) <= 5 else (180 if len(case_lines) <= 50 else 1200))
     if rc != 0:
         return [(c, 'res ? harness-failed', 'res ? -') for c in case_lines]
     run_driver(cp, lp)
@@ -351,6 +351,8 @@ def compare(ctx, rows, proj, what, oracle=None, nontrivial=None, max_report=3, o
         for op in list(bad):
             keep = []
             for c, g, l in bad[op][:8]:
+                if len(keep) >= 2:
+                    break      # two cases of this operator have reproduced: that is the finding; the rest is not re-run
                 again = [r for _ in range(recheck) for r in replay_cases(ctx, [c])]
                 if again and all(proj(parse_res(gg)) != proj(parse_res(ll)) for _, gg, ll in again):
                     keep.append((c, g, l))
